@@ -15,6 +15,9 @@ Oracle on the real code (independent of the Lean model):
     it — is reported as C07:undescribed-collector-not-restrictable (a known finding; the hypothesis ClaimsCover of
     restricted_is_filter excludes exactly it, theorem claims_cover_needed exhibits it)
   * collect() is invoked only on collectors claiming one of the names, at most once each
+  * time-varying collectors (oracle only): collectors whose described / collected families change between calls (a
+    history op switches their phase); while registered a collector claims what it described AT REGISTRATION; once
+    unregistered nothing of it may be yielded or called, through whatever name
   * re-entrancy (oracle only, single-threaded): a collector whose collect() registers / unregisters another collector,
     unregisters itself or sets target info while the registry is being collected: collect() must not raise and follows
     SNAPSHOT semantics — it yields the collectors registered at the moment it took its snapshot (what the model's
@@ -80,15 +83,29 @@ def rich_collector(rng, cid):
     return {'id': cid, 'kind': 'custom', 'describe': d, 'families': fams}
 
 
+def varying_collector(rng, cid):
+    names = rng.sample(['dev_a', 'dev_b', 'dev_c'] + base.ALPHABET[:4], rng.choice([2, 3]))
+    fams = [fam_with_unit(cid * 100 + j * 10, n, rng.choice(['gauge', 'counter', 'unknown']), '') for j, n in enumerate(names)]
+    desc = rng.random() < 0.5
+    phases = []
+    for keep in (fams, [f for f in fams if rng.random() < 0.5] or fams[:1]):
+        phases.append({'describe': [[f['name'], f['type']] for f in keep] if desc else None, 'families': keep})
+    return {'id': cid, 'kind': 'varying', 'phases': phases}
+
+
 def random_registry_case(rng):
     k = rng.randrange(2, 8)
     cs = []
     for i in range(k):
-        cs.append(rich_collector(rng, i + 1))
+        cs.append(varying_collector(rng, i + 1) if rng.random() < 0.12 else rich_collector(rng, i + 1))
+    var = [c for c in cs if c['kind'] == 'varying']
     ops = []
     for _ in range(rng.randrange(2, 16)):
         r = rng.random()
-        if r < 0.6:
+        if var and rng.random() < 0.15:
+            c = rng.choice(var)
+            ops.append(['m', c['id'], rng.randrange(len(c['phases']))])
+        elif r < 0.6:
             ops.append(['r', rng.choice(cs)['id']])
         elif r < 0.8:
             ops.append(['u', rng.choice(cs)['id']])
@@ -143,6 +160,15 @@ FIXED = [
 
 
 KEPT_CORPUS = [
+    # a collector whose families change while it is registered (a family per attached device); once unregistered NOTHING of
+    # it may be served or called, not even through a name only its registration-time description had
+    {'ad': True, 'ti': None, 'collectors': [
+        {'id': 1, 'kind': 'varying', 'phases': [
+            {'describe': None, 'families': [fam_with_unit(100, 'dev_a', 'gauge', ''), fam_with_unit(110, 'dev_b', 'gauge', '')]},
+            {'describe': None, 'families': [fam_with_unit(100, 'dev_a', 'gauge', '')]}]},
+        {'id': 2, 'kind': 'custom', 'describe': [['g', 'gauge']], 'families': [fam_with_unit(200, 'g', 'gauge', '')]}],
+     'ops': [['r', 1], ['r', 2], ['m', 1, 1], ['u', 1], ['r', 2]],
+     'watch': [[1, ['dev_b']], [1, ['dev_a', 'dev_b', 'g']]], 'namesets': [['dev_b'], ['dev_a'], ['dev_a', 'dev_b']]},
     # families that have no samples to begin with must be omitted like any family left empty: a labelled Counter and a
     # labelled Histogram without children, a custom collector with an empty family next to a non-empty one
     {'ad': False, 'ti': None, 'collectors': [
@@ -380,6 +406,10 @@ class Runner:
         ctx.count('registry-claims-cover' if st['covers'] else 'registry-claims-do-not-cover')
         results = [self.query(prep, case, reg.restricted_registry(list(names)), names, regs, ti, st['full'], st['covers'],
                               st['exact_ok']) for names in namesets]
+        if any(o[0] == 'm' for o in case['ops']):
+            # the model treats a collector as a value; histories that mutate a collector are checked by the oracle only
+            ctx.count('oracle-only-histories-with-mutating-collector')
+            return
         wreq = [(w[0], w[1]) for w in kept]
         self.pending.append((dict(case, namesets=[sorted(set(n)) for n in namesets], watch=[[k, ns] for k, ns in wreq]),
                              prep.request(namesets=namesets, watch=wreq), obs, results, [w[3] for w in kept]))
@@ -576,10 +606,13 @@ def run(ctx):
     for _ in range(n):
         rn.one(random_registry_case(ctx.rng))
     rn.flush()
+    from props import c07fam; c07fam.run(ctx)
 
 
 def replay(ctx, case):
     c = case.get('case', case)
+    if c.get('fam'):
+        from props import c07fam; return c07fam.replay(ctx, case)
     rn = Runner(ctx)
     if c.get('kind') == 'reentrant':
         run_reentrant(rn, c)
